@@ -70,6 +70,9 @@ def _mentions_S(t):
 def check(ctx):
     P = ctx.P
     N = ctx.normalizer()
+    from .C07 import cadence
+
+    cadence(ctx, N, "R-REFRESH-GUARD")  # a warm start refreshes / re-orthogonalises exactly as the cold search would
     base = P.cls("skmatter._selection.GreedySelector")
     fit_site = ctx.site(P.method(base, "fit"))
     for cq, pkg, axis, S in CLASSES:
